@@ -44,6 +44,44 @@ def construct (cat : Cat) (key : Int) : R (List PyVal) :=
       pure vals
     else pure vals
 
+/-- `self.x = x` / `self.x = x or {}` applied to a GIVEN argument value (Python truthiness) -/
+def truthy : PyVal → Bool
+  | .none => false
+  | .bool b => b
+  | .int i => i != 0
+  | .float bits => !(bits == 0 || bits == 0x8000000000000000)
+  | .decimal _ c _ => c != 0
+  | .decimalSpecial _ => true
+  | .str s => !s.isEmpty
+  | .bytes b => !b.isEmpty
+  | .bytearray b => !b.isEmpty
+  | .list l => !l.isEmpty
+  | .dict d => !d.isEmpty
+  | .datetime _ _ => true
+  | .structTime _ => true
+  | .other => true
+
+def normGiven (a : ArgSpec) (v : PyVal) : PyVal :=
+  match a.norm with
+  | .plain => v
+  | .orEmptyDict => if truthy v then v else .dict []
+  | .orEmptyStr => if truthy v then v else .str []
+  | .orFalse => if truthy v then v else .bool false
+  | .orOther => v
+
+/-- `Cls(v1, ..., vn)`: attribute values after `__init__`, or the exception of the trailing `self.validate()` -/
+def constructWith (spec : MethodSpec) (given : List PyVal) : R (List PyVal) :=
+  let vals := (spec.args.zip given).map (fun p => normGiven p.1 p.2)
+  if spec.ctorValidates then do
+    Base.validate spec.slots vals spec.rules
+    pure vals
+  else pure vals
+
+/-- `Basic.Properties(v1, ..., v14)`: plain stores, then `self.validate()` -/
+def constructProps (cat : Cat) (rules : List Rule) (given : List PyVal) : R (List PyVal) := do
+  Base.validate (cat.props.map (·.name)) given rules
+  pure given
+
 def step (cat : Cat) (s : State) : Op → State × Out
   | .toggle arg => ({ legacy := arg.getD true }, .unit)
   | .encodeValue v => (s, .bytes (Encode.tableValue s.legacy v))
